@@ -19,8 +19,8 @@ import (
 var ctx = context.Background()
 
 // XNames is every xattr name the alphabets ever use, plus the two virtual ones.
-var XNames = []string{"_s", "_t", "u", "$document", "$document.revid"}
-var RealXNames = []string{"_s", "_t", "u"}
+var XNames = []string{"_s", "_t", "u", "_s2", "$document", "$document.revid"}
+var RealXNames = []string{"_s", "_t", "u", "_s2"}
 
 // SubPaths are the sub-document paths every observation reads back through GetSubDocRaw.
 var SubPaths = []string{"v", "a", "a.z", "nope"}
